@@ -33,6 +33,15 @@ class Infra(Exception):
     """Machinery failure: exit 2, never a violation."""
 
 
+class Crashed(Exception):
+    """The harness process was killed by the code under test (Go fatal error / unrecovered panic with
+    frames of the repository): an observation of the real code, reported as a violation."""
+
+    def __init__(self, violation):
+        Exception.__init__(self, violation["detail"])
+        self.violation = violation
+
+
 def log(*a):
     print(*a, file=sys.stderr, flush=True)
 
@@ -98,6 +107,13 @@ class Ctx:
         self.cmds.append("vdrive " + " ".join(str(a) for a in args))
         p = subprocess.run([exe] + [str(a) for a in args], capture_output=True, text=True, timeout=timeout, env=e, cwd=self.scratch)
         if check and p.returncode != 0:
+            txt = (p.stdout or "") + (p.stderr or "")
+            repo = os.path.realpath(REPO)
+            fatal = [ln for ln in txt.splitlines() if ln.startswith("fatal error:") or ln.startswith("panic:")]
+            if fatal and (repo + "/" in txt):
+                frames = [ln.strip() for ln in txt.splitlines() if repo + "/" in ln][:6]
+                raise Crashed(dict(property=self.prop, kind="process-crash", limit=None, key=self.prop + "|crash|" + fatal[0][:80],
+                                   input_text="vdrive %s: %s" % (args[0], fatal[0]), detail="\n".join(fatal[:2] + frames)))
             raise Infra("vdrive %s failed (exit %d):\n%s\n%s" % (args[0], p.returncode, p.stdout[-4000:], p.stderr[-4000:]))
         return p
 
